@@ -231,7 +231,8 @@ Definition td_sort (l : list tdm) : list tdm := fold_left (fun acc x => td_inser
 Definition cell (n : Z) (m : list Z) (i j : Z) : Z := nth (Z.to_nat (i * n + j)) m 0.
 
 (* interpolate_duration on the sorted matrices: binary_search(timestamp as u64): exact -> that matrix; before the first -> first;
-   after the last -> last; else linear interpolation (the division is exact on the generated data: see ASSUMPTIONS of the plugin) *)
+   after the last -> last; else linear interpolation - unless one of the two values is negative (unreachable marker): then the left
+   value - (the division is exact on the generated data: see ASSUMPTIONS of the plugin) *)
 Fixpoint td_interp (n : Z) (ms : list tdm) (i j t : Z) : Z :=
   match ms with
   | [] => 0
@@ -240,7 +241,8 @@ Fixpoint td_interp (n : Z) (ms : list tdm) (i j t : Z) : Z :=
       if to_u64 t <=? to_u64 (td_ts m0) then cell n (td_dur m0) i j
       else if to_u64 t <? to_u64 (td_ts m1)
            then let l := cell n (td_dur m0) i j in let h := cell n (td_dur m1) i j in
-                l + (t - td_ts m0) * (h - l) / (td_ts m1 - td_ts m0)
+                if (l <? 0) || (h <? 0) then l            (* a negative value marks an unreachable location: the left value is kept *)
+                else l + (t - td_ts m0) * (h - l) / (td_ts m1 - td_ts m0)
            else td_interp n r i j t
   end.
 (* interpolate_distance: the matrix at or LEFT of the timestamp, no interpolation *)
